@@ -2,7 +2,7 @@
    (compileOptimized) and the matchers (matchers.go) REGENERATED from /repo on this run. *)
 From Coq Require Import List ZArith Lia Bool Arith.
 From RG.Base Require Import Outcome GoSlice.
-From RG.Regex Require Import Utf8 Regex FastPath GoOps Capture Matcher.
+From RG.Regex Require Import Utf8 Regex FastPath GoOps Capture Matcher History.
 From RGW Require Import Gen_Textmatch Inst_Textmatch.
 Import ListNotations.
 Local Open Scope Z_scope.
@@ -67,9 +67,27 @@ Print Assumptions C11_literal_paths_only_plain.
 (* call sites: Text.Matches / File().Name.Matches / File().PkgPath.Matches return exactly the compiled pattern's verdict
    on the node text / base file name / package path, and the loader hands over what textmatch.Compile / regexp.Compile
    returned (read off filters.go and ir_loader.go on this run) *)
-Theorem C11_predicate_call_sites : forallb snd gen_match_sites = true /\ (7 <= List.length gen_match_sites)%nat.
+Theorem C11_predicate_call_sites : forallb snd gen_match_sites = true /\ (11 <= List.length gen_match_sites)%nat.
 Proof. exact match_sites_hold. Qed.
 Print Assumptions C11_predicate_call_sites.
+
+(* histories of runs through one reused RunnerState: a predicate whose verdict does not depend on the state it finds (the
+   call-site facts above: the closures read the compiled pattern and this run's text only, and nothing else survives a
+   Run()) gives, in every run of every history from every state, the verdict of that run's own context -- and only such
+   predicates do. A site that keeps its first answer (memo_site) answers all later runs with it. *)
+Theorem C11_history_independent :
+  forall (state ctx : Type) (f : site state ctx) (spec : ctx -> bool),
+    stateless f spec <-> (forall st h, run_history f st h = map spec h).
+Proof. intros; split; [apply stateless_history|apply history_stateless]. Qed.
+Print Assumptions C11_history_independent.
+
+Theorem C11_pure_predicate_history :
+  forall (state ctx : Type) (g : ctx -> bool) (st : state) (h : list ctx), run_history (pure_site g) st h = map g h.
+Proof. exact pure_site_history. Qed.
+
+Theorem C11_memoised_predicate_keeps_first_answer :
+  forall (ctx : Type) (g : ctx -> bool) c h, run_history (memo_site g) None (c :: h) = g c :: map (fun _ => g c) h.
+Proof. exact @memo_site_keeps_first. Qed.
 
 (* byte strings vs rune sequences (UTF-8 self-synchronisation), proved, not assumed *)
 Theorem C11_contains_bytes_iff_runes :
